@@ -236,6 +236,9 @@ func (e *Engine) renderVC(o *Obligation) (string, error) {
 	for _, r := range o.Reveal {
 		used[strings.TrimPrefix(r, "spec.")] = true
 	}
+	for _, h := range o.HideSpec {
+		hide[strings.TrimPrefix(h, "spec.")] = true
+	}
 	forms := e.spec.closure(used, hide)
 	defined := map[string]bool{}
 	for _, f := range forms {
@@ -272,6 +275,7 @@ func (e *Engine) renderVC(o *Obligation) (string, error) {
 	}
 	seenHyp := map[string]bool{}
 	for _, h := range o.Hyps {
+		h = stripNegVariants(h, true)
 		hs := h.String()
 		if seenHyp[hs] {
 			continue
